@@ -290,6 +290,24 @@ class Rig(object):
         self.touched = True
         self.ev.append(dict(a="Send", kind="ldl", n=n, res=res, smiu=s._tco.send_miu, lmiu=self.A.cfg["send-miu"]))
 
+    def ldl_send_view(self, i, items, width):
+        """a message handed over as a buffer object whose items are `width` octets wide: refused with TypeError (no
+        event: nothing happened) or judged by its size in OCTETS like every other message"""
+        import array
+        s = self.ldl_a[i]
+        dest = self.ldl_b[self.rnd.randrange(len(self.ldl_b))].getsockname()
+        arr = array.array({1: "B", 2: "H", 4: "I"}[width], [7] * items)
+        msg = memoryview(arr) if self.rnd.random() < 0.7 else arr
+        try:
+            s.sendto(msg, dest, DONTWAIT)
+            res = "OK"
+        except TypeError:
+            return
+        except err_mod.Error as e:
+            res = errname(e)
+        self.touched = True
+        self.ev.append(dict(a="Send", kind="ldl", n=items * width, res=res, smiu=s._tco.send_miu, lmiu=self.A.cfg["send-miu"]))
+
     def dlc_send(self, i, n):
         s = self.dlc_a[i]
         t = s._tco
@@ -437,6 +455,9 @@ def scenario(seed, klass, miu=None):
                 sizes = split(rnd, target, j)
             for n in sizes:
                 R.ldl_send(rnd.randrange(ns), n)
+            if rnd.random() < 0.5:        # buffer objects with wide items: the item count fits, the octets do not
+                w = rnd.choice([1, 2, 4])
+                R.ldl_send_view(rnd.randrange(ns), rnd.choice([miu // w, miu // w + 1, miu - 1, miu, 3]), w)
             if R.raw_a and rnd.random() < 0.7:
                 R.raw_send(0, pdu_mod.UnnumberedInformation(R.ldl_b[0].getsockname(), 20,
                                                            R.data(rnd.choice([0, 5, miu, miu + 9]))))
